@@ -1006,6 +1006,21 @@ func (r *Runtime) checkObjectCoercible(v Value) {
 	}
 }
 
+// floatToInt64Mod converts a finite float to an integer modulo 2^64 (truncating the fraction), as required by the
+// modular conversions (ToInt32, ToUint32, ...). A plain int64(f) is implementation-defined when |f| >= 2^63.
+func floatToInt64Mod(f float64) int64 {
+	const two63 = 9223372036854775808.0
+	if f >= two63 || f < -two63 {
+		f = math.Mod(f, 2*two63)
+		if f >= two63 {
+			f -= 2 * two63
+		} else if f < -two63 {
+			f += 2 * two63
+		}
+	}
+	return int64(f)
+}
+
 func toInt8(v Value) int8 {
 	v = v.ToNumber()
 	if i, ok := v.(valueInt); ok {
@@ -1015,7 +1030,7 @@ func toInt8(v Value) int8 {
 	if f, ok := v.(valueFloat); ok {
 		f := float64(f)
 		if !math.IsNaN(f) && !math.IsInf(f, 0) {
-			return int8(int64(f))
+			return int8(floatToInt64Mod(f))
 		}
 	}
 	return 0
@@ -1030,7 +1045,7 @@ func toUint8(v Value) uint8 {
 	if f, ok := v.(valueFloat); ok {
 		f := float64(f)
 		if !math.IsNaN(f) && !math.IsInf(f, 0) {
-			return uint8(int64(f))
+			return uint8(floatToInt64Mod(f))
 		}
 	}
 	return 0
@@ -1084,7 +1099,7 @@ func toInt16(v Value) int16 {
 	if f, ok := v.(valueFloat); ok {
 		f := float64(f)
 		if !math.IsNaN(f) && !math.IsInf(f, 0) {
-			return int16(int64(f))
+			return int16(floatToInt64Mod(f))
 		}
 	}
 	return 0
@@ -1099,7 +1114,7 @@ func toUint16(v Value) uint16 {
 	if f, ok := v.(valueFloat); ok {
 		f := float64(f)
 		if !math.IsNaN(f) && !math.IsInf(f, 0) {
-			return uint16(int64(f))
+			return uint16(floatToInt64Mod(f))
 		}
 	}
 	return 0
@@ -1114,7 +1129,7 @@ func toInt32(v Value) int32 {
 	if f, ok := v.(valueFloat); ok {
 		f := float64(f)
 		if !math.IsNaN(f) && !math.IsInf(f, 0) {
-			return int32(int64(f))
+			return int32(floatToInt64Mod(f))
 		}
 	}
 	return 0
@@ -1129,7 +1144,7 @@ func toUint32(v Value) uint32 {
 	if f, ok := v.(valueFloat); ok {
 		f := float64(f)
 		if !math.IsNaN(f) && !math.IsInf(f, 0) {
-			return uint32(int64(f))
+			return uint32(floatToInt64Mod(f))
 		}
 	}
 	return 0
@@ -1144,7 +1159,7 @@ func toInt64(v Value) int64 {
 	if f, ok := v.(valueFloat); ok {
 		f := float64(f)
 		if !math.IsNaN(f) && !math.IsInf(f, 0) {
-			return int64(f)
+			return floatToInt64Mod(f)
 		}
 	}
 	return 0
@@ -1159,7 +1174,7 @@ func toUint64(v Value) uint64 {
 	if f, ok := v.(valueFloat); ok {
 		f := float64(f)
 		if !math.IsNaN(f) && !math.IsInf(f, 0) {
-			return uint64(int64(f))
+			return uint64(floatToInt64Mod(f))
 		}
 	}
 	return 0
